@@ -260,6 +260,16 @@ def run_program_case(ctx, prop, prog, text, info, allowed_switches=(), baseline=
     for key in (keys or [None]):
       ctx.violation(key, '%s for predicate %s: %s' % (what, pred, (res.detail or '')[:300]),
                     witness(prog, text, res, info))
+  report_udf_invariants(ctx, dict(info, program=text))
+
+
+def report_udf_invariants(ctx, wit):
+  """Invariants at a hook on the ArgMin / ArgMax UDF objects (vf/mon/udf_contracts.py), if the check installed them."""
+  from vf.mon import udf_contracts
+  if not udf_contracts.state['installed']:
+    return
+  for what, det in udf_contracts.drain()[:2]:
+    ctx.violation(None, 'ArgMin/ArgMax UDF invariant broken during this program: %s %s' % (what, det), dict(wit, invariant=what, details=det))
 
 
 class Collector:
